@@ -140,7 +140,7 @@ BREAK = [
     ("blocks-lose-remainder", ["C15"], BP, "point_partition.append(point - accumulation)", "point_partition.append(point)", "R-SUMBACK"),
     ("ortho-range", ["C15"], BP, "for l in range(k):", "for l in range(k - 1):", "R-ORTHO"),
     ("ortho-inequality", ["C15"], BP, "self.add_constraint(xi_decomposed[k] * xj_decomposed[l] == 0)", "self.add_constraint(xi_decomposed[k] * xj_decomposed[l] <= 0)", "R-ORTHO"),
-    ("blocks-recreated", ["C15"], BP, "        if point not in self.blocks_dict.keys():\n", "        if True:\n", "R-MEMOBLK"),
+    ("blocks-recreated", ["C15"], BP, "        if point not in self.blocks_dict.keys():\n", "        if True:\n", "R-SUMBACK"),
     ("block-smooth-full-gradient", ["C15", "C03"], "PEPit/functions/block_smooth_convex_function.py", "1 / (2 * self.L[k]) * (gik - gjk) ** 2", "1 / (2 * self.L[k]) * (gi - gj) ** 2", "R-FORMULA"),
     # ---- failures (C16)
     ("leaf-expression-returns-zero", ["C16"], EX, 'raise ValueError("The PEP must be solved to evaluate Expressions!")', "return 0.", "R-UNSOLVED"),
